@@ -109,7 +109,7 @@ def dstep0 (d : DState) : List String → DState × String
   | ["begin", r, a, o, dl, ml, vl, al] =>
     match r.toNat?, a.toInt?, o.toInt?, dl.toNat?, ml.toNat?, vl.toNat?, al.toNat? with
     | some r, some a, some o, some dl, some ml, some vl, some al =>
-      -- r: bit 0 = repaired, bit 1 = popAfter (candidate repair of remove_samples), bit 2 = lateDict
+      -- r: bit 0 = repaired, bit 1 = popAfter (second cache invalidation of remove_samples), bit 2 = lateDict
       if r > 7 then (d, "bad-op") else
       ({ cfg := { repaired := r % 2 == 1, popAfter := (r / 2) % 2 == 1, lateDict := (r / 4) % 2 == 1, useCache := true, minAge := a, oldLimit := o, defLimit := dl, maxLimit := ml,
                   viewLevel := vl, adminLevel := al }, st := {}, fls := [], pend := none }, "ok")
